@@ -243,6 +243,8 @@ class Ev:
     def get_attr(self, v, name, node=None, mod=None):
         if isinstance(v, Masked):
             v = v.val
+        if hasattr(v, "sym_getattr"):
+            return v.sym_getattr(self, name, node, mod)
         if isinstance(v, Obj):
             return self.obj_attr(v, name, node, mod)
         if isinstance(v, Opaque):
@@ -598,10 +600,14 @@ class Ev:
             return bool(v)
         if isinstance(v, MatchV):
             return True
+        if hasattr(v, "sym_truth"):
+            return v.sym_truth(self, n, mod)
         if isinstance(v, str):
             return bool(v)
         if is_sym(v) and v.is_number:
             return bool(v != 0)
+        if is_sym(v) and v.is_positive:
+            return True
         if isinstance(v, Tup):
             return bool(v.items)
         if isinstance(v, DictV):
@@ -651,7 +657,9 @@ class Ev:
                 r = False
             return r if isinstance(op, ast.Is) else not r
         if isinstance(op, (ast.In, ast.NotIn)):
-            if isinstance(b, Tup) and const(a) and const(b):
+            if hasattr(b, "sym_contains"):
+                r = b.sym_contains(self, a, n, mod)
+            elif isinstance(b, Tup) and const(a) and const(b):
                 r = py(a) in [py(i) for i in b.items]
             elif isinstance(b, DictV) and const(a):
                 r = py(a) in b.d
@@ -705,6 +713,8 @@ class Ev:
     def subscript(self, base, idx, n=None, mod=None):
         if isinstance(base, Masked):
             base = base.val
+        if hasattr(base, "sym_subscript"):
+            return base.sym_subscript(self, idx, n, mod)
         if isinstance(base, Opaque):
             return Opaque(f"{base.name}[{idx!r}]")
         if isinstance(base, ShapeOf):
@@ -764,13 +774,17 @@ class Ev:
             if all(i is None or i is Ellipsis or (isinstance(i, SliceV) and i.lo is None and i.hi is None and i.step is None)
                    for i in items):
                 return base  # broadcasting wrapper: erased (axes are E3's business)
-            return Indexed(base, tuple(items))
+            from .opaque import scalar_part
+            c, r = scalar_part(base)
+            return c * indexed(r, tuple(items))
         raise self.err(f"unsupported subscript on {type(base).__name__}", n, mod)
 
     # comprehension support (concrete iterables only)
     def iterate(self, v, n=None, mod=None):
         if isinstance(v, Masked):
             v = v.val
+        if hasattr(v, "sym_iter"):
+            return v.sym_iter(self, n, mod)
         if isinstance(v, Tup):
             return list(v.items)
         if isinstance(v, DictV):
@@ -783,13 +797,18 @@ class Ev:
 
     def comp(self, n, env, mod, elt_fn):
         out = []
+        flags = []
+        self._comp_flags = flags
 
         def rec(gens, env):
             if not gens:
                 out.append(elt_fn(env))
                 return
             g = gens[0]
-            for item in self.iterate(self.eval(g.iter, env, mod), g.iter, mod):
+            itv = self.eval(g.iter, env, mod)
+            if getattr(itv, "elementwise_seq", False):
+                flags.append(True)
+            for item in self.iterate(itv, g.iter, mod):
                 e2 = dict(env)
                 self.assign(g.target, item, e2, mod)
                 if all(self.truth(self.eval(c, e2, mod), c, mod) for c in g.ifs):
@@ -799,7 +818,10 @@ class Ev:
         return out
 
     def e_ListComp(self, n, env, mod):
-        return Tup(self.comp(n, env, mod, lambda e: self.eval(n.elt, e, mod)), "list")
+        t = Tup(self.comp(n, env, mod, lambda e: self.eval(n.elt, e, mod)), "list")
+        if self._comp_flags:
+            t.elementwise = True
+        return t
 
     e_GeneratorExp = e_ListComp
 
@@ -859,6 +881,8 @@ class Ev:
             if key in self.seeds:
                 return self.seeds[key](self, args, kwargs)
             return self.construct(f.ref, args, kwargs, n, mod)
+        if hasattr(f, "sym_call"):
+            return f.sym_call(self, args, kwargs, n, mod)
         if isinstance(f, Opaque):
             return Opaque(f"{f.name}(...)")
         if isinstance(f, ConvV):
@@ -1011,6 +1035,8 @@ class Ev:
     def store_subscript(self, t, v, env, mod):
         base = self.eval(t.value, env, mod)
         idx = self.eval(t.slice, env, mod)
+        if hasattr(base, "sym_store"):
+            return base.sym_store(self, idx, v, t, mod)
         if isinstance(base, DictV):
             base.d[idx] = v
             return
@@ -1171,12 +1197,16 @@ class ShapeOf:
         self.v = v
 
 
-class Indexed(sp.Function):
-    """x[idx] for a non-trivial index; kept as an opaque atom with the index text"""
-    nargs = None
+Indexed = sp.Function("Indexed")
 
-    def __new__(cls, base, idx):
-        return sp.Function.__new__(cls, base, sp.Symbol("idx[" + ",".join(map(repr, idx)) + "]"))
+
+def indexed(base, idx):
+    """x[idx] for a non-trivial index; kept as an opaque atom with the index text"""
+    return Indexed(base, sp.Symbol("idx[" + ",".join(map(repr, idx)) + "]"))
+
+
+def is_indexed(t):
+    return getattr(t, "func", None) == Indexed
 
 
 class Transposed(sp.Function):
